@@ -44,6 +44,15 @@ Theorem C05_data_delivered : forall s system w,
 Proof. exact data_delivered. Qed.
 Print Assumptions C05_data_delivered.
 
+(* a control response that answers no open request of its own type changes nothing - also when a request of ANOTHER type is open under
+   the same system bytes: a Select.rsp carrying the system bytes of an open Linktest.req does not select the session (D74) *)
+Theorem C05_foreign_response_no_effect : forall s system status,
+  (queued_as s system ST_SELECT_REQ = false -> hs_step s (EvCtrl ST_SELECT_RSP system status) = (s, [])) /\
+  (queued_as s system ST_DESELECT_REQ = false -> hs_step s (EvCtrl ST_DESELECT_RSP system status) = (s, [])) /\
+  (queued_as s system ST_LINKTEST_REQ = false -> hs_step s (EvCtrl ST_LINKTEST_RSP system status) = (s, [])).
+Proof. exact foreign_response_no_effect. Qed.
+Print Assumptions C05_foreign_response_no_effect.
+
 (* the session state is always one of the three E37 states *)
 Theorem C05_three_states : forall es, inv (fst (hs_run hs0 es)).
 Proof. exact reachable_inv. Qed.
